@@ -153,6 +153,10 @@ class _Frame:
         self.returns = []
 
 
+def _is_literal_term(t):
+    return t[0] == "const" or (t[0] == "tuple" and all(_is_literal_term(x) for x in t[1]))
+
+
 def _without_continue(body):
     """`if t: A; continue` followed by R, directly in a loop body, is `if t: A else: R` (other placements are left alone
     and rejected by the caller)."""
@@ -300,6 +304,17 @@ class Flow:
             if s.orelse:
                 raise Unsupported("for/else in %s" % fr.fi.qualname)
             body = _without_continue(s.body)
+            if it[0] in ("tuple", "list") and 0 < len(it[1]) <= 8 and all(_is_literal_term(x) for x in it[1]):
+                # a loop over a literal table is the sequence of its passes
+                for st_ in body:
+                    for n in ast.walk(st_):
+                        if isinstance(n, (ast.Break, ast.Continue)):
+                            raise Unsupported("break/continue in a loop of %s" % fr.fi.qualname)
+                for item in it[1]:
+                    self.assign(s.target, item, env, fr, loops, guards)
+                    if not self.block(body, env, fr, loops, guards):
+                        return False
+                return True
             for st_ in body:
                 for n in ast.walk(st_):
                     if isinstance(n, (ast.Break, ast.Continue)):
@@ -411,7 +426,30 @@ class Flow:
                     return ("const", -v.operand.value)
                 if isinstance(v, ast.Constant) and isinstance(v.value, (int, float, str, bool, type(None))):
                     return ("const", v.value)
+                # a literal table: (nested) tuples / lists of literals and of names of such constants
+                seen = getattr(self, "_lit_stack", set())
+                if isinstance(v, (ast.Tuple, ast.List)) and name not in seen:
+                    self._lit_stack = seen | {name}
+                    try:
+                        t = self._literal(v, fr)
+                    finally:
+                        self._lit_stack = seen
+                    if t is not None:
+                        return t
         return ("global", tgt or name)
+
+    def _literal(self, v, fr):
+        if isinstance(v, ast.Constant) and isinstance(v.value, (int, float, str, bool, type(None))):
+            return ("const", v.value)
+        if isinstance(v, ast.UnaryOp) and isinstance(v.op, ast.USub) and isinstance(v.operand, ast.Constant) and isinstance(v.operand.value, (int, float)):
+            return ("const", -v.operand.value)
+        if isinstance(v, (ast.Tuple, ast.List)):
+            items = [self._literal(x, fr) for x in v.elts]
+            return None if any(i is None for i in items) else ("tuple", tuple(items))
+        if isinstance(v, ast.Name):
+            t = self.lookup(v.id, {}, fr)
+            return t if t[0] in ("const", "tuple") else None
+        return None
 
     def ev(self, e, env, fr, loops, guards):
         E = lambda x: self.ev(x, env, fr, loops, guards)
